@@ -21,7 +21,7 @@ def main():
         names = [h for h, hi in gi['harnesses'].items()
                  if (not a.harness or h in a.harness) and (a.thorough or hi.get('tier', 'quick') == 'quick' or a.harness)]
         r = kani_run.run_kani(s, gi['package'], [pre + '::' + h for h in names],
-                              rustflags='--cfg force_bits="%d"' % a.word, timeout=a.timeout + 300,
+                              rustflags='--cfg force_bits="%d"' % gi.get('word', a.word), timeout=a.timeout + 300,
                               harness_timeout=a.timeout, features=gi.get('features'),
                               no_default_features=gi.get('no_default_features', False), cbmc_args=gi.get('cbmc_args', ()))
         print('wall %.1fs rc=%s' % (r['wall_s'], r['returncode']))
